@@ -237,6 +237,94 @@ def parse(src):
     return table, others
 
 
+# ------------------------------------------------------------------ lib/srfi/160/uvprims.stub (element-indexed uniform vectors)
+def parse_uv(src):
+    """rows for the NAMEvector-ref / NAMEvector-set! bindings: (name, set, index arg, vector arg, lower, upper) where
+    lower/upper say whether the assertion contains 0 <= argI and argI < (uvector-length argV) for the index / vector
+    arguments the C function receives; the C function must index `uv[i]` (or 2i, 2i+1 for the complex ones, or the bit i)."""
+    forms = read_all(src)
+    cdecl = ""
+    for f in forms:
+        if isinstance(f, list) and f and f[0] == "c-declare":
+            cdecl += "\n".join(x[1] for x in f[1:] if isinstance(x, tuple))
+    cfun = {}
+    for m in re.finditer(r"\n(?:[\w ]+?)\s+(\w+vector_(?:ref|set))\s*\(([^)]*)\)\s*\{(.*?)\n\}", cdecl, re.S):
+        cfun[m.group(1)] = (m.group(2), m.group(3))
+    rows = []
+    for f in forms:
+        if not (isinstance(f, list) and f and f[0] == "define-c"):
+            continue
+        name = f[2]
+        sname = name[0] if isinstance(name, list) else name
+        if not re.fullmatch(r"[a-z0-9]+vector-(ref|set!)", sname):
+            continue
+        cname = name[1][1] if isinstance(name, list) else sname.replace("-", "_").replace("!", "")
+        args, body = f[3], f[4:]
+        has_ctx = bool(args) and args[0] == ["value", "ctx", "sexp"]
+        vpos = 1 if has_ctx else 0
+        if len(args) < vpos + 2 or args[vpos + 1] != "int":
+            raise Unsupported("%s: argument list %r" % (sname, args))
+        ipos = vpos + 1
+        if cname not in cfun:
+            raise Unsupported("%s: C function %s not found in the c-declare block" % (sname, cname))
+        params, cbody = cfun[cname]
+        pn = [x.strip().split()[-1].lstrip("*") for x in params.split(",")]
+        if len(pn) < ipos + 1 or pn[vpos] != "uv" or pn[ipos] != "i":
+            raise Unsupported("%s: parameters of %s are %r" % (sname, cname, pn))
+        idx = set(re.findall(r"uv\[([^\]]*)\]", cbody)) | set("bit " + x for x in re.findall(r"sexp_bit_(?:ref|set)\(uv,\s*(\w+)", cbody))
+        if not idx or not idx <= {"i", "i*2", "i*2 + 1", "bit i"}:
+            raise Unsupported("%s: %s indexes %r" % (sname, cname, sorted(idx)))
+        asr = [b for b in body if isinstance(b, list) and b and b[0] == "assert"]
+        if len(asr) > 1 or len(body) != len(asr):
+            raise Unsupported("%s: body %r" % (sname, body))
+        lower = upper = False
+        for c in (asr[0][1:] if asr else []):
+            if isinstance(c, list) and c[0] == "mutable?" and len(c) == 2 and argno(c[1]) == vpos:
+                continue
+            if isinstance(c, list) and c[0] == "<" and len(c) == 4 and c[1] == "-1" and isinstance(c[2], str) and argno(c[2]) == ipos \
+                    and isinstance(c[3], list) and c[3][0] == "uvector-length" and len(c[3]) == 2 and argno(c[3][1]) == vpos:
+                lower = upper = True
+                continue
+            if isinstance(c, list) and c[0] == "<" and len(c) == 3 and c[1] == "-1" and isinstance(c[2], str) and argno(c[2]) == ipos:
+                lower = True
+                continue
+            if isinstance(c, list) and c[0] == "<" and len(c) == 3 and isinstance(c[1], str) and c[1].startswith("arg") and argno(c[1]) == ipos \
+                    and isinstance(c[2], list) and c[2][0] == "uvector-length" and len(c[2]) == 2 and argno(c[2][1]) == vpos:
+                upper = True
+                continue
+            flat = repr(c)
+            if "arg%d" % ipos in flat or "arg%d" % vpos in flat:
+                raise Unsupported("%s: assertion conjunct about the index / vector outside the subset: %r" % (sname, c))
+            # a conjunct about the value argument only (range of the element type): not part of the window
+        rows.append(dict(name=sname, set=sname.endswith("set!"), lower=lower, upper=upper, elem=sname.split("vector")[0]))
+    if not rows:
+        raise Unsupported("no uniform-vector accessor found")
+    return rows
+
+
+def coq_text_uv(rows):
+    out = ["(** GENERATED by gen/c19_accessors.py from lib/srfi/160/uvprims.stub -- do not edit *)",
+           "From Coq Require Import ZArith List String.", "From ChibiV Require Import C19.UvTable.", "Import ListNotations.", "Local Open Scope string_scope.",
+           "Definition uv_table : list uacc := ["]
+    out.append(";\n".join('  mkUacc "%s" %s %s %s' % (r["name"], "true" if r["set"] else "false", "true" if r["lower"] else "false", "true" if r["upper"] else "false") for r in rows))
+    out.append("].")
+    return "\n".join(out) + "\n"
+
+
+def regen_uv(ctx):
+    src = open(os.path.join(B.REPO, "lib", "srfi", "160", "uvprims.stub")).read()
+    try:
+        rows = parse_uv(src)
+    except Unsupported as e:
+        ctx.broken("gen:C19_UvTable", "lib/srfi/160/uvprims.stub is outside the translator's subset: %s" % e)
+        rows = []
+    ctx.gen("C19_UvTable", coq_text_uv(rows))
+    if not rows:   # keep the K-outer sweep alive: the names alone
+        names = sorted(set(re.findall(r"\(define-c\s+\S+\s+\(?([a-z0-9]+vector-(?:ref|set!))", src)))
+        rows = [dict(name=n, set=n.endswith("set!"), lower=True, upper=True, elem=n.split("vector")[0]) for n in names]
+    return rows
+
+
 def coq_text(table, others):
     out = ["(** GENERATED by gen/c19_accessors.py from lib/scheme/bytevector.stub -- do not edit *)",
            "From Coq Require Import ZArith List String.", "From ChibiV Require Import C19.AccTable.", "Import ListNotations.", "Local Open Scope string_scope.",
@@ -266,5 +354,8 @@ def regen(ctx):
 
 if __name__ == "__main__":
     import sys
-    t, o = parse(open(sys.argv[1]).read())
-    sys.stdout.write(coq_text(t, o))
+    if sys.argv[1].endswith("uvprims.stub"):
+        sys.stdout.write(coq_text_uv(parse_uv(open(sys.argv[1]).read())))
+    else:
+        t, o = parse(open(sys.argv[1]).read())
+        sys.stdout.write(coq_text(t, o))
